@@ -50,11 +50,11 @@ def push (s : Spec Tree H) (r : EId H) (pre post : Tree) : Spec Tree H :=
 def undoEligible (es : List (Entry H)) (i : EId H) : Bool :=
   (match findEntry es i with | some e => e.revertOf.isNone | none => false) && !hasRevertOf es i
 
-def redoEligible (es : List (Entry H)) (i : EId H) : Bool := hasId es i && hasRevertOf es i
+def redoEligible (es : List (Entry H)) (i : EId H) : Bool := hasId es i && hasRevertOf es i && !hasRedoOf es i
 
-/-- how the specification follows one command of the implementation: it moves only when the command succeeded -/
+/-- how the specification follows one command of the implementation (the code as it is, `Cfg.current`): it moves only when the command succeeded -/
 def specStep (ops : Ops Tree Plan Backup H) (s : Spec Tree H) (w : World Tree Plan Backup H) (c : Cmd H) : Spec Tree H :=
-  let r := step ops w c
+  let r := step .current ops w c
   if r.2 = .ok then
     match c with
     | .rename se re => push s (.plan (ops.hash (se ++ re) w.clock)) w.tree r.1.tree
@@ -69,7 +69,7 @@ def AppendsOne (before after : List (Entry H)) : Prop :=
 
 /-- What C10 demands of one command, given the abstract history `s` before it. -/
 def Conforms (ops : Ops Tree Plan Backup H) (w : World Tree Plan Backup H) (s : Spec Tree H) (c : Cmd H) : Prop :=
-  let r := step ops w c
+  let r := step .current ops w c
   match c with
   | .tick => r.1.tree = w.tree ∧ r.1.entries = w.entries
   | .rename _ _ =>
@@ -87,7 +87,7 @@ def Conforms (ops : Ops Tree Plan Backup H) (w : World Tree Plan Backup H) (s : 
 def AllConform (ops : Ops Tree Plan Backup H) :
     World Tree Plan Backup H → Spec Tree H → List (Cmd H) → Prop
   | _, _, [] => True
-  | w, s, c :: cs => Conforms ops w s c ∧ AllConform ops (step ops w c).1 (specStep ops s w c) cs
+  | w, s, c :: cs => Conforms ops w s c ∧ AllConform ops (step .current ops w c).1 (specStep ops s w c) cs
 
 /-- The round-trip law of the tree side (C01's subject), assumed by the refinement theorem: undoing with the
     reverse patches an apply produced, on the tree it produced, gives back the tree it started from. -/
@@ -101,36 +101,34 @@ def isPartly : ApplyRes Tree Backup → Bool
 variable [DecidableEq Tree]
 
 /-- The guard of `refines_spec_partial`, evaluated command by command on the current world and abstract history:
-    * `freshId`      a rename / redo computes an id that is not yet in the history (no two id-equal commands in one second)
     * `noPartial`    a rename's apply does not stop half-way through its files (C04's subject)
-    * `undoInPlace`  an undo that passes the implementation's eligibility test addresses an operation the abstract
-                     history has as applied and whose post-state is the current tree
-    * `redoInPlace`  a redo that passes addresses an operation the abstract history has as undone and whose pre-state
-                     is the current tree
+    * `undoInPlace`  an undo that passes the implementation's eligibility test finds the tree in the post-state of the
+                     operation it addresses (no later operation has changed it since)
+    * `redoInPlace`  a redo that passes finds the tree in the pre-state of the operation it addresses
+    Nothing is assumed about ids (a rename or redo whose id is already present is refused before anything happens) nor
+    about applied / undone (the implementation's eligibility tests are proved to imply the abstract ones).
     A command the implementation's own eligibility tests reject is always inside the guard. -/
 def G10 (ops : Ops Tree Plan Backup H) (w : World Tree Plan Backup H) (s : Spec Tree H) : Cmd H → Bool
   | .tick => true
   | .rename se re =>
     let p := ops.scan w.tree se re
-    ops.isEmpty p ||
-      (!hasId w.entries (.plan (ops.hash (se ++ re) w.clock)) && !isPartly (ops.apply w.tree p))
+    ops.isEmpty p || hasId w.entries (.plan (ops.hash (se ++ re) w.clock)) || !isPartly (ops.apply w.tree p)
   | .undo t =>
     match resolve w.entries true t with
     | none => true
     | some i => !undoEligible w.entries i ||
-        (match find s i.root with | some o => o.applied && decide (w.tree = o.post) | none => false)
+        (match find s i.root with | some o => decide (w.tree = o.post) | none => false)
   | .redo t =>
     match resolve w.entries false t with
     | none => true
     | some i => !redoEligible w.entries i ||
-        ((match find s i.root with | some o => !o.applied && decide (w.tree = o.pre) | none => false) &&
-          !hasId w.entries (.redo i w.clock))
+        (match find s i.root with | some o => decide (w.tree = o.pre) | none => false)
 
 /-- the guard holds at every step of the run -/
 def Guarded (ops : Ops Tree Plan Backup H) :
     World Tree Plan Backup H → Spec Tree H → List (Cmd H) → Bool
   | _, _, [] => true
-  | w, s, c :: cs => G10 ops w s c && Guarded ops (step ops w c).1 (specStep ops s w c) cs
+  | w, s, c :: cs => G10 ops w s c && Guarded ops (step .current ops w c).1 (specStep ops s w c) cs
 
 end
 end HistorySpec
